@@ -25,7 +25,8 @@ theorem C09_manifest_trunc (cd : Codec) (hv : cd.Valid) (ext : Nat) (hext : ext 
     (hsize : c < 2 ^ 32)
     (hfit : (manifestFileOf cd ext pre).length + 8 ≤ c → (cd.enc last).length ≤ c) :
     MFile.openExisting cd ((manifestFileOf cd ext (pre ++ [last])).take c) ext threshold =
-      .ok ({ file := manifestFileOf cd ext pre, manifest := m.clone cd, threshold, ext }, m) := by
+      .ok ({ file := manifestFileOf cd ext pre, manifest := m.clone cd, threshold, ext,
+             pos := (manifestFileOf cd ext pre).length }, m) := by
   unfold MFile.openExisting
   rw [C17_trunc cd hv ext hext pre last c m hall hrange hc1 hc2 hsize hfit]
   simp only
